@@ -2,7 +2,8 @@
 
 A case is {"n": ready connections, "start": clock ns, "ops": [...]} with ops
   {"op":"pick","draws":[a,b,a,b,a,b]}   values returned by the successive p.r.Intn calls (a < n, b < n-1)
-  {"op":"done","k":j,"code":c}          call the done func of the j-th successful pick; c = -1 nil error,
+  {"op":"done","k":j,"code":c,"flags":f} call the done func of the j-th successful pick with DoneInfo{Err, BytesSent (f&1),
+                                        BytesReceived (f&2), Trailer (f&4), ServerLoad (f&8)}; c = -1 nil error,
                                         -2 plain error, else grpc status code; optional "codes":[..] gives the
                                         code per connection position (the driver reports the one it used)
   {"op":"adv","dt":ns}
@@ -56,7 +57,8 @@ DRIVER_TIMEOUT = 900
 RULE = ("histories of 8-60 pick/done/advance steps over n in {0,1,2,3,4,5,8} ready connections on the virtual clock "
         "(clock starting at 1 h, or at 1 ns..10 s in a quarter of the random cases; advances from 0 ns to 8000 s: same-instant, ns, ms, around the 1 s force-pick bound, around the 6.93 s "
         "half-life, the 60 s log interval, w denormal/0), scripted Intn draws, grpc codes -1/-2/0..16 with "
-        "per-connection failure profiles, a few double-called done funcs; ReadySCs maps in which several SubConns share one "
+        "per-connection failure profiles, every combination of the DoneInfo flags BytesSent/BytesReceived/Trailer/ServerLoad x "
+        "acceptable/unacceptable status, an answering-with-errors family, a few double-called done funcs; ReadySCs maps in which several SubConns share one "
         "Address.Addr (exact duplicates, or differing in ServerName / Attributes) for N = 2..8 in about half of the cases, "
         "incl. a sweep family that hands every position to choose; directed families: score exactly at the "
         "500 threshold with >= 3 conns, 2-conn force-pick boundary (1 s +- 1 ns), 500+ consecutive failing "
@@ -278,7 +280,7 @@ def _slow_decay_case(rng):
     for _ in range(rng.randint(502, 520)):
         ops.append({"op": "pick", "draws": []})
         ops.append({"op": "adv", "dt": rng.randint(1, 3)})
-        ops.append({"op": "done", "k": np_, "code": rng.choice(FAIL_CODES)})
+        ops.append({"op": "done", "k": np_, "code": rng.choice(FAIL_CODES), "flags": rng.choice([3, 7, 15, 3, 0])})
         np_ += 1
     ops.append({"op": "pick", "draws": []})
     return {"n": n, "start": START, "ops": ops}
@@ -349,11 +351,6 @@ def drive(cases, tier):
         if obs_c is None:
             return None, log2
         log += log2[-2000:]
-    for c, o in zip(bal, obs_b):
-        if c.get("stat"):
-            msg = stat_check(c, o)
-            if msg:
-                return None, msg + "\ncase: " + repr({k: v for k, v in c.items() if k != "ops"})
     ib, ic = iter(obs_b), iter(obs_c)
     return [next(ic) if c.get("kind") == "client" else next(ib) for c in cases], log
 
@@ -395,14 +392,47 @@ def _client_cases(rng, n):
     return out[:max(n, 19)]
 
 
+def _answer_error_case(rng):
+    """A backend that ANSWERS: every completion carries BytesSent/BytesReceived (and often a trailer / load report);
+    one connection answers with unacceptable statuses forever, the others with acceptable ones."""
+    n = rng.choice([1, 2, 2, 3, 4])
+    bad = rng.randrange(n)
+    ops = []
+    np_ = 0
+    for j in range(rng.randint(6, 24)):
+        ops.append({"op": "pick", "draws": _draws(rng, n)})
+        ops.append({"op": "adv", "dt": rng.choice([MS, 3 * MS, 40 * MS, S // 4, S + 1, 3 * S])})
+        codes = [(rng.choice(FAIL_CODES) if i == bad else rng.choice(OK_CODES)) for i in range(n)]
+        ops.append({"op": "done", "k": np_, "code": codes[0], "codes": codes,
+                    "flags": rng.choice([3, 3, 7, 15, 11, 2, 1])})
+        np_ += 1
+    case = {"n": n, "start": START, "ops": ops}
+    case.update(_addr_layout(rng, n))
+    return case
+
+
+def _flag_pass(rng, case):
+    """every flag combination x acceptable/unacceptable codes on the completions that do not fix their flags"""
+    for op in case.get("ops", []):
+        if op["op"] == "done" and "flags" not in op:
+            op["flags"] = rng.choice([0, 0, 3, 3, 7, 15] + list(range(16)))
+    return case
+
+
 def generate(rng, tier, n):
+    return [_flag_pass(rng, c) for c in _generate(rng, tier, n)]
+
+
+def _generate(rng, tier, n):
     cases = []
     for i in range(n):
         r = rng.random()
         if r < 0.52:
             cases.append(_random_case(rng))
-        elif r < 0.62:
+        elif r < 0.60:
             cases.append(_sweep_case(rng))
+        elif r < 0.67:
+            cases.append(_answer_error_case(rng))
         elif r < 0.77:
             cases.append(_threshold_case(rng))
         elif r < 0.9:
@@ -427,7 +457,10 @@ def search(rng, problems):
         out.append(_force_case(rng))
         out.append(_round_case(rng))
         out.append(_sweep_case(rng))
+        out.append(_answer_error_case(rng))
     out.append(_slow_decay_case(rng))
+    for c in out:
+        _flag_pass(rng, c)
     return out
 
 
@@ -484,7 +517,7 @@ def encode(case, obs):
             code = st.get("code", op.get("code", -1))
             if code == -2:
                 code = 2        # a non-status error has status.Code Unknown
-            x = "XDone %s %s" % (cnat(op["k"]), cZ(code))
+            x = "XDone %s %s %s" % (cnat(op["k"]), cZ(code), cZ(op.get("flags", 0)))
         else:
             x = "XAdv %s" % cZ(op["dt"])
         o = "(mkobs %s %s %s %s %s %s %s %s %s %s %s)" % (
@@ -496,8 +529,9 @@ def encode(case, obs):
     snames = case.get("snames") or [0] * n
     inaddr = [cpair(cZ(addrs[i] if i < len(addrs) else i), cZ(snames[i] if i < len(snames) else 0)) for i in range(n)]
     connaddr = [cpair(cZ(a), cZ(k)) for a, k in (obs.get("connaddr") or [])]
-    return "CB (mkcase %s %s %s %s %s %s)" % (cnat(n), cZ(case["start"]), clist([cnat(i) for i in obs["order"]]),
-                                            clist(inaddr), clist(connaddr), clist(steps))
+    stat = stat_check(case, obs) is None if case.get("stat") else True
+    return "CB (mkcase %s %s %s %s %s %s %s)" % (cnat(n), cZ(case["start"]), clist([cnat(i) for i in obs["order"]]),
+                                               clist(inaddr), clist(connaddr), cbool(stat), clist(steps))
 
 
 def nontrivial(case, obs):
@@ -533,6 +567,7 @@ def bucket(case, obs):
             if op["k"] in called:
                 out.append("done:twice")
             called.add(op["k"])
+            out.append("done:flags=%d:%s" % (op.get("flags", 0), "fail" if st.get("code") in FAIL_CODES else "ok"))
             w = _w(st["wbits"])
             out.append("w:" + ("1" if w == 1.0 else "0" if w == 0.0 else "<1e-300" if w < 1e-300 else "<.5" if w < 0.5 else "<1"))
         if st["conns"]:
@@ -553,7 +588,9 @@ def explain(case, obs):
     return ("the observed counters contradict C14.Exec.spec_ok: a Pick returned a non-ready SubConn, or inflight != "
             "picks - completions, or a success score outside [0,1000] / moving away from its target on a completion "
             "(c14_success_range / c14_success_monotone), or a latency estimate outside the observed latencies "
-            "(c14_lag_between_min_max), or a score above 500 after 500 consecutive failing completions, or (>= 3 conns) a "
+            "(c14_lag_between_min_max), or a score above max 0 (1000 - f) after f consecutive failing completions with td > 0 "
+            "whatever BytesSent/BytesReceived/Trailer/ServerLoad the DoneInfo carried (c14_error_answer_lowers_score, "
+            "c14_all_fail_unhealthy_within_500), or (>= 3 conns) a "
             "connection outside the first all-healthy drawn pair was chosen (c14_unhealthy_avoided), or (2 conns) the "
             "connection not picked for more than 1 s was not picked (c14_force_pick); client cases: the ClientConn built by "
             "NewClient does not run the p2c_ewma balancer / lost its default service config, or a ready backend "
